@@ -3,7 +3,7 @@
    `tr` (DATE_TRUNC at the rollup's granularity) is arbitrary: every theorem holds for every truncation function.
    Histories are lists of operations of ANY length. *)
 From Coq Require Import ZArith List Bool.
-Require Import V.Model.Refresh V.Proofs.C18_proofs.
+Require Import V.Model.Refresh V.Model.RefreshProg V.Gen.Refresh_gen V.Proofs.C18_proofs V.Proofs.C18_prog_proofs.
 Import ListNotations.
 Open Scope Z_scope.
 
@@ -41,6 +41,21 @@ Theorem C18_history : forall h o s, is_refresh o = true -> all_pre tr (h ++ [o])
   match rollup (run tr (h ++ [o]) s) with Some r => approx tr r (base (run tr (h ++ [o]) s)) | None => False end.
 Proof. exact (history_converges tr). Qed.
 End Statements.
+
+(* TIE BY REGENERATION.  Gen/Refresh_gen.v holds the statement programs (DROP / CREATE AS / INSERT / DELETE WHERE <watermark column>
+   >= <watermark> ...) that _refresh_full / _refresh_incremental / _refresh_merge execute, extracted from pre_aggregation.py on every
+   run, per scenario (table exists, has a maximum watermark, lookback given).  Interpreted statement by statement
+   (Model/RefreshProg.exec; a missing table or a CREATE over an existing one is an SQL error) they never fail and leave exactly
+   the rollup of Model/Refresh.step and no temporary table -- for every state and every operation, hence for every history.
+   So the theorems above are theorems about the extracted programs, not only about the hand-written `step`. *)
+Theorem C18_prog_refines : forall tr s o, is_refresh o = true ->
+  run_prog tr s o = Some {| target := rollup (step tr s o); temp := None |}.
+Proof. exact prog_refines_step. Qed.
+Theorem C18_progs_history : forall tr h s, run_progs tr h s = Some (run tr h s).
+Proof. exact progs_refine_run. Qed.
+(* refresh(mode=...) dispatches each mode literal to its own strategy, arguments passed through in order *)
+Theorem C18_dispatch : mode_dispatch = expected_dispatch.
+Proof. reflexivity. Qed.
 
 (* the CLI's incremental and merge modes do NOT obey the guarantees on a second run (no watermark predicate in the source statement) *)
 Example C18_cli_incremental_refuted :
